@@ -23,7 +23,7 @@ func init() { core.Register(c20{}) }
 func (c20) ID() string    { return "C20" }
 func (c20) Level() string { return "exploration" }
 func (c20) Rule() string {
-	return "cases = generated histories (rotated files, batches, values whose last bytes are zero, tombstones of keys ending in 0x00, adopted merges so that a hint file is in the directory, un-adopted merge directories) under both I/O types (every eighth case with the relative DirPath data, whose text re-occurs in every data-file name) with 1..5 Backup calls interleaved with continued writing (in every third case all backups go into the SAME directory, which then already holds the previous backup, with merges adopted in between so that source files shrink; every sixth case first fills many files with uniformly sized records, backs up between a finished Merge and its adoption and again after the adoption, when rewritten files have replaced originals of the same byte size); at each Backup the model is snapshotted; the copy is opened WHILE the source is still open (it must not carry the lock), dumped against the snapshot, written to and restarted (must not affect the source), and closed; the source then continues, deliberately with a value larger than the space left on the active file's last 4 KiB page, a multi-block value, enough data to rotate, and a restart, and is dumped against the model after each. In every fourth case (thorough: every 16th) a writer goroutine puts a numbered sequence of keys while 30 (mapped I/O: 4) further backups are taken: each must open to a prefix of that sequence between what was acknowledged at the call and what was issued at the return. Every case runs in a worker process: the death of the worker (SIGBUS on a truncated mapping) is a violation attributed to the open case. Non-trivial: >=2 backups, >=1 taken with >=3 data files and >=1 after an adopted merge; distinct = hash of (config, op list)"
+	return "cases = generated histories (rotated files, batches, values whose last bytes are zero, tombstones of keys ending in 0x00, adopted merges so that a hint file is in the directory, un-adopted merge directories) under both I/O types (every eighth case with the relative DirPath data, whose text re-occurs in every data-file name) with 1..5 Backup calls interleaved with continued writing (in every third case all backups go into the SAME directory, which then already holds the previous backup, with merges adopted in between so that source files shrink; every sixth case first fills many files with uniformly sized records, backs up between a finished Merge and its adoption and again after the adoption, when rewritten files have replaced originals of the same byte size); at each Backup the model is snapshotted; the copy is opened WHILE the source is still open (it must not carry the lock), dumped against the snapshot, written to and restarted (must not affect the source), and closed; the source then continues, deliberately with a value larger than the space left on the active file's last 4 KiB page, a multi-block value, enough data to rotate, and a restart, and is dumped against the model after each. In every fourth case (thorough: every 17th) a writer goroutine puts a numbered sequence of keys while 30 (mapped I/O: 4) further backups are taken: each must open to a prefix of that sequence between what was acknowledged at the call and what was issued at the return. Every case runs in a worker process: the death of the worker (SIGBUS on a truncated mapping) is a violation attributed to the open case. Non-trivial: >=2 backups, >=1 taken with >=3 data files and >=1 after an adopted merge; distinct = hash of (config, op list)"
 }
 func (c20) Assumptions() []string {
 	return []string{"process death is attributed through the worker journal", "the copy is opened with the source's configuration and with the other I/O type alternately"}
@@ -48,8 +48,8 @@ func (c20) Cases(tier string, seed uint64) []core.Case {
 			cfg.DataFileSize = 8 << 10
 			cfg.FileIO = byte((i / 6) % 2) // both back-ends (the mapped one touches every file at Open)
 		}
-		conc := 0 // backups concurrent with a writer: every fourth case (thorough: every 16th)
-		if (tier != "thorough" && i%4 == 1) || i%16 == 1 {
+		conc := 0 // backups concurrent with a writer: every fourth case (thorough: every 17th)
+		if (tier != "thorough" && i%4 == 1) || i%17 == 1 {
 			conc = 1
 		}
 		out = append(out, core.Case{Index: i, ID: fmt.Sprintf("c20-%05d", i), Seed: r.U64(), Data: seqCase{Cfg: cfg, NOps: r.Range(30, 150), NKeys: r.Range(3, 9), Flag: conc}})
